@@ -1192,12 +1192,15 @@ def bind(function, *args, watch=False, **kwargs):
                 dependencies[f'__arg{i}_arg_{kw}'] = kwarg
         elif isinstance(p, Parameter):
             dependencies[f'__arg{i}'] = p
-    for kw, v in kwargs.items():
+    for n, (kw, v) in enumerate(kwargs.items()):
         if hasattr(v, '_dinfo'):
+            # Named after the position of the keyword, not its name: names
+            # joined by '_' are ambiguous (kw 's' + 'arg0' vs kw 's_arg' + 0)
+            # and a collision silently drops a dependency.
             for j, arg in enumerate(v._dinfo['dependencies']):
-                dependencies[f'__kwarg_{kw}_arg{j}'] = arg
+                dependencies[f'__kwarg{n}_arg{j}'] = arg
             for pkw, kwarg in v._dinfo['kw'].items():
-                dependencies[f'__kwarg_{kw}_{pkw}'] = kwarg
+                dependencies[f'__kwarg{n}_kw_{pkw}'] = kwarg
         elif isinstance(v, Parameter):
             dependencies[kw] = v
 
